@@ -19,6 +19,41 @@ def pub_accepts(ctx, res):
     return c09.collect_events(ctx, res, light=True)
 
 
+def attacks():
+    """The corner of MC_Provenance's space where one host tries to speak for another, laid out systematically instead of
+    drawn: every ordered pair (victim address, attacker address) x the ways the attacker's document gets looked at."""
+    urls = ["A/x", "A_p/x", "B/x", "M/x"]
+    host = {"A/x": "A", "A_p/x": "A_p", "B/x": "B", "M/x": "M"}
+    err = {"t": "err"}
+    out = []
+    for v in urls:
+        for a in urls:
+            if host[a] == host[v]:
+                continue
+            third = [u for u in urls if u not in (v, a)][0]
+            for stub in (False, True):
+                claim = {"t": "doc", "id": v, "stub": stub}
+                worlds = []
+                w = {u: err for u in urls}; w[v] = {"t": "redir", "to": a}; w[a] = claim; worlds.append(w)          # the victim's address leads to the attacker
+                w = {u: err for u in urls}; w[a] = claim; worlds.append(w)                                           # the attacker claims the victim's id
+                w = {u: err for u in urls}; w[a] = claim; w[v] = {"t": "doc", "id": v, "stub": False}; worlds.append(w)  # ... while the victim has its own
+                w = {u: err for u in urls}; w[third] = {"t": "redir", "to": a}; w[a] = claim; worlds.append(w)       # a bystander leads to the attacker
+                w = {u: err for u in urls}; w[v] = {"t": "redir", "to": a}; w[a] = {"t": "redir", "to": v}; worlds.append(w)
+                for w in worlds:
+                    inputs = [{"t": "ref", "u": v}, {"t": "ref", "u": a}, {"t": "ref", "u": third}]
+                    for holder in urls:
+                        inputs += [{"t": "emb", "id": a, "stub": True, "stamp": host[holder]}, {"t": "emb", "id": v, "stub": True, "stamp": host[holder]},
+                                   {"t": "emb", "id": a, "stub": False, "stamp": host[holder]}, {"t": "emb", "id": v, "stub": False, "stamp": host[holder]}]
+                    for inp in inputs:
+                        for src in ["none"] + urls:
+                            if inp["t"] == "emb" and src != "none" and inp["stamp"] != host[src]:
+                                continue        # InputOK: an embedded object inside a validated document was served by that document's host
+                            if inp["t"] == "emb" and src == "none" and inp["stamp"] != host[urls[0]] and not inp["stub"]:
+                                continue
+                            out.append({"world": w, "inp": inp, "src": src})
+    return out
+
+
 def run(ctx):
     res = vlib.Result(ctx, "model_checking")
     q = ctx.quick
@@ -30,6 +65,7 @@ def run(ctx):
         res.add_tlc(r)
         g = ctx.tlc("MC_Provenance", "Gen_Provenance.cfg", workers=1, consts={"UrlSet": us, "GenN": 500 if q else 4000}, extra=["-seed", str(ctx.seed)])
         cases += g.json_lines("GEN")
+    cases += attacks()
     seen = set()
     uniq = []
     import json as _j
@@ -58,6 +94,7 @@ def run(ctx):
     res.rule = ("a case is one call of the real client.FetchUnknown (or one item built by a pub constructor) in a world where every "
                 "served document is stamped with its serving host; judged by T_Prov (id present => stamp host = id host); distinct = "
                 "distinct (world, input, source); worlds/inputs are sampled by TLC from the space MC_Provenance checks exhaustively, "
+                "plus, laid out systematically, every (victim address, attacker address) pair with redirects to the attacker, claimed ids and two-step refetches, "
                 "plus seeded inputs on the same world with a warm cache")
     acc = [e for e in evs if e["ev"] == "accept"]
     for e in acc[:2] + acc[-1:]:
